@@ -96,20 +96,20 @@ package query
 //@   loop 10 decreases len(nc.Summands) - rangeindex
 
 // cleanFlagConditions: every loop terminates (run-time checks assumed to pass; range loops have a fixed
-// bound and need no annotation). The three enumeration loops walk a 16 bit value down to zero or up to 0xffff.
+// bound and need no annotation). The three enumeration loops walk the sub-masks of a 16 bit value down to zero.
 //@ bv uint16
 //@ func cleanFlagConditions
 //@   noframe
 //@   cutloops
 //@   nosafety
-//@   loop 2 invariant -1 <= i && i <= len(fc.SubQueries) + 1
-//@   loop 2 decreases 2*len(fc.SubQueries) - i + 1
-//@   loop 3 decreases 65535 - int(v)
-//@   loop 8 invariant 0 <= bit && bit <= 16
-//@   loop 8 decreases 16 - bit
-//@   loop 9 invariant bit == at_loop(8, bit) && 0 <= bit && bit < 16
-//@   loop 9 decreases int(v)
+//@   loop 3 invariant -1 <= i && i <= len(fc.SubQueries) + 1
+//@   loop 3 decreases 2*len(fc.SubQueries) - i + 1
+//@   loop 4 decreases int(v)
+//@   loop 9 invariant 0 <= bit && bit <= 16
+//@   loop 9 decreases 16 - bit
+//@   loop 10 invariant bit == at_loop(9, bit) && 0 <= bit && bit < 16
 //@   loop 10 decreases int(v)
+//@   loop 11 decreases int(v)
 
 // The sort order of tag conditions (what makes the normal form canonical): the comparator equals
 // tagLess, and tagLess is a strict total order on (sub-query, tag name) keys.
